@@ -5,7 +5,10 @@ from checks.decoder_common import run_property
 
 def jobs(tier):
     m = ("strict", "warn")
-    return D.g_pump(m) + D.g_leaf(("strict",), deep=1) + D.g_arrays(("strict",))
+    from checks import c15
+    front = [(c15.unit_hex, (list(range(i, min(i + 16, 256))),)) for i in range(0, 256, 16)] + [(c15.unit_swtpm, ())]
+    front += [(c15.unit_wrapper, (w, k)) for w in ("hex", "swtpm") for k in ("opaque", "bytes", "bytearray", "list", "iterator")]
+    return D.g_pump(m) + D.g_leaf(("strict",), deep=1) + D.g_arrays(("strict",)) + front
 
 
 def keep(name, ob):
@@ -17,4 +20,4 @@ def run(tier, seed, only=None):
     return run_property("C10", tier, seed, jobs(tier), keep,
                         "pump invariant pulled <= sent + 1 at every yield (both loops by the invariant rule, unbounded input); the only operations applied to the buffer are iter() and next() (any iterable); the leaf emits a field's event directly after its last byte and list walkers decode one element per iteration, so no walker reads ahead; prefix stability is the corollary (pump and processor are deterministic functions of the bytes sent so far, C12)",
                         only, replayer, min_obligations=2000,
-                        extra_assumptions=["lazy byte generators of the text front-ends are covered by C15's scanner obligations"])
+                        extra_assumptions=["front-end scanners: every step consumes at most one input character and yields at most one byte (step obligations shared with C15); the wrappers hand the scanner - not a pre-converted buffer - to the decoder for every kind of source"])
